@@ -18,7 +18,7 @@ from corankco.element import Element
 try:
     import cplex
 except ImportError:
-    pass
+    cplex = None
 
 
 class ExactAlgorithmCplex(ExactAlgorithmBase, PairwiseBasedAlgorithm):
